@@ -161,15 +161,28 @@ def unsupported(optic):
     return None
 
 
-def _family(optic, fam, w):
-    """Real eps-family: arrays [k][j] of x, y, M, N.  One trace_generic call with 9 rays."""
+def _family(optic, fam, w, style=0):
+    """Real eps-family: arrays [k][j] of x, y, M, N.  One trace_generic call with 9 rays.
+    style: how the zero coordinates are passed - 0: floats / float arrays, 1: Python ints,
+    2: integer arrays (all three mean the same coordinates)."""
     eps = np.array(EPS)
     z = np.zeros(NJ)
+    zi = np.zeros(NJ, dtype=int)
     with np.errstate(all="ignore"):
         if fam == "marginal":
-            quiet(optic.trace_generic, 0.0, 0.0, z.copy(), eps.copy(), w)
+            if style == 1:
+                quiet(optic.trace_generic, 0, 0, 0, eps.copy(), w)
+            elif style == 2:
+                quiet(optic.trace_generic, zi.copy(), zi.copy(), zi.copy(), eps.copy(), w)
+            else:
+                quiet(optic.trace_generic, 0.0, 0.0, z.copy(), eps.copy(), w)
         else:
-            quiet(optic.trace_generic, z.copy(), eps.copy(), z.copy(), z.copy(), w)
+            if style == 1:
+                quiet(optic.trace_generic, 0, eps.copy(), 0, 0, w)
+            elif style == 2:
+                quiet(optic.trace_generic, zi.copy(), eps.copy(), zi.copy(), zi.copy(), w)
+            else:
+                quiet(optic.trace_generic, z.copy(), eps.copy(), z.copy(), z.copy(), w)
     sg = optic.surface_group
     return {k: np.array(getattr(sg, k), dtype=float) for k in ("x", "y", "z", "M", "N")}
 
@@ -229,7 +242,7 @@ def record(optic, label, lens_id):
         if fam == "chief" and F == 0.0:
             continue
         try:
-            R = _family(optic, fam, w)
+            R = _family(optic, fam, w, style=(lens_id if isinstance(lens_id, int) else sum(map(ord, str(lens_id)))) % 3)
         except Exception as ex:
             out["skip"] = "trace_generic raises: %s: %s" % (type(ex).__name__, ex)
             return out
